@@ -122,10 +122,15 @@ Definition update_next_float (p now next : float) : ures float :=
 Local Close Scope Z_scope.
 
 (* what the user callback does when it is invoked *)
-Inductive kind :=
-| KSync       (* plain function (returns None or a non-awaitable), or raises *)
-| KSyncStop   (* plain function that calls self.stop() *)
-| KAsync.     (* returns an awaitable; completed later by EDone *)
+Inductive kind (T : Type) :=
+| KSync              (* plain function (returns None or a non-awaitable), or raises *)
+| KSyncStop          (* plain function that calls self.stop() *)
+| KAsync             (* returns an awaitable; completed later by EDone *)
+| KSyncClock (t : T). (* plain function that takes time: the clock reads t when it returns *)
+Arguments KSync {T}.
+Arguments KSyncStop {T}.
+Arguments KAsync {T}.
+Arguments KSyncClock {T} t.
 
 Inductive event (T : Type) :=
 | EClock (t : T)            (* IOLoop.time() returns t from now on *)
@@ -133,7 +138,7 @@ Inductive event (T : Type) :=
 | EStart (skew : option T)  (* start(); Some t: the clock moves to t between the two reads in start() *)
 | EStop                     (* stop() *)
 | EFire                     (* the oldest pending timeout expires: the loop calls self._run(), creating a coroutine *)
-| ERun (k : kind)           (* the oldest created _run coroutine takes its first step *)
+| ERun (k : kind T)         (* the oldest created _run coroutine takes its first step *)
 | EDone.                    (* the awaitable of the oldest suspended _run completes (normally or not) *)
 Arguments EClock {T} t.
 Arguments ERand {T} r.
@@ -253,6 +258,12 @@ Section Machine.
               | KAsync =>
                   (mkSt (s_now s) (s_rnd s) (s_running s) (s_next s) (s_timeout s) (s_pending s)
                         a (S (s_inflight s)) (s_nextid s), [OCbStart])
+              | KSyncClock t =>
+                  (* the clock has moved on when the finally clause calls _schedule_next *)
+                  let '(s2, o) :=
+                    schedule_next (mkSt t (s_rnd s) (s_running s) (s_next s) (s_timeout s) (s_pending s)
+                                        a (s_inflight s) (s_nextid s)) in
+                  (s2, OCbStart :: OCbEnd :: o)
               end
         end
     | EDone =>
